@@ -803,6 +803,33 @@ impl<'ast, 'c> Visit<'ast> for FnVisitor<'c> {
 				syn::visit::visit_expr_for_loop(self, fl);
 				return;
 			}
+			// `for PAT in &EXPR` (EXPR evaluates to a Vec): `let vx_vN = EXPR; { let mut vx_iN = 0; while vx_iN < vx_vN.len() { let PAT = &vx_vN[vx_iN]; … } }`
+			if let syn::Expr::Reference(rf) = &*fl.expr {
+				let (es, ee) = br(rf.expr.span());
+				let (ps, pe) = br(fl.pat.span());
+				let iv = format!("vx_i{}", ord);
+				let vv = format!("vx_v{}", ord);
+				self.push(ws, bs, vec![
+					Part::Text(format!("let {} = ", vv)), Part::Src(es, ee),
+					Part::Text(format!("; {{ let mut {}: usize = 0;\nwhile {} < {}.len()\n", iv, iv, vv)),
+				], "L20");
+				let mut parts = self.clause_parts("invariant_except_break", "invariant", &lc.invariant_except_break, "        ");
+				let mut inv = vec![Clause::Plain(format!("{} <= {}.len()", iv, vv))];
+				inv.extend(lc.invariant.iter().cloned());
+				parts.extend(self.clause_parts("invariant", "invariant", &inv, "        "));
+				parts.extend(self.clause_parts("ensures", "invariant", &lc.ensures, "        "));
+				let d = lc.decreases.clone().unwrap_or(format!("{}.len() - {}", vv, iv));
+				parts.push(Part::Text(format!("\n        decreases {},\n    ", d)));
+				self.push(bs, bs, parts, "A2");
+				self.push(bs + 1, bs + 1, vec![
+					Part::Text("\nlet ".to_string()), Part::Src(ps, pe),
+					Part::Text(format!(" = &{}[{}]; {} = {} + 1;\n", vv, iv, iv, iv)),
+				], "L20");
+				self.push(we, we, vec![Part::Text(" }".to_string())], "L20");
+				self.push(we, we, vec![Part::Text(";".to_string())], "A2");
+				syn::visit::visit_expr_for_loop(self, fl);
+				return;
+			}
 			let recv = match &*fl.expr {
 				syn::Expr::MethodCall(mc) if mc.method == "iter" && mc.args.is_empty() => br(mc.receiver.span()),
 				// `for PAT in X` over an owned Vec named by a path: the index loop binds `&X[i]`; accepted only because the
